@@ -9,7 +9,9 @@ EXPL = ('Partial claim. Exactness of add/sub/mul/Montgomery reduction for all op
         'Tonelli-Shanks constants of Fr (t, (t+1)/2, a primitive 2^s-th root of unity, s), the top-byte masks of '
         'sampling/hash reduction and the sufficiency of one conditional subtraction; (R-GUARD G2/G3/G7) the zero '
         'special cases the statement lists: inverse(0)=0 with the non-terminating Euclid loop on the non-zero edge, '
-        'negate(0)=0 (p - a only for a != 0), Fr::square_root(0).')
+        'negate(0)=0 (p - a only for a != 0), Fr::square_root(0); (R-CANON) in the portable FpBase add/multiply2/subtract/reduce '
+        'of every instantiated width the final `- p` / `+ p` correction is applied exactly for compare >= 0 or carry (resp. borrow): '
+        'the truth table over compare in {-1,0,1} x flag in {0,1} is evaluated on the CFG (this is the branch uniform sampling never reaches).')
 
 
 def run(ctx):
@@ -22,3 +24,4 @@ def run(ctx):
     for cfg, prog in ctx.programs().items():
         n = consts.rule_field_constants(ctx, cfg, prog)
         guards.g237_field_zero_cases(ctx, cfg, prog)
+        guards.canon_tables(ctx, cfg, prog)
